@@ -5,6 +5,7 @@ import VsbModel.Lemmas.PathRoundTrip
 import VsbModel.Lemmas.PlanFacts
 import VsbModel.Lemmas.GeneralCheck
 import VsbModel.Lemmas.LogicalRun
+import VsbModel.Lemmas.WalkArchive
 set_option linter.unusedSimpArgs false
 set_option linter.unusedSectionVars false
 
@@ -251,6 +252,22 @@ theorem history_restore_exact {F : Type} [DecidableEq F] (hashOf : List β → H
       exact hinv.1 b (List.mem_of_getElem? hgj)
   · exact resolvableL_of_resolvable hashOf hinj g hinv.2 t lt hlt
 
+
+open Vsb.Dedup in
+/-- The first half of `OpSoundL` need not be assumed when the tree is what the model of `Backuper` (M2, C08) archives:
+for any items, filters, hooks, errors and aborts of the walk over trees whose directories hold no name twice and whose
+names are normal path components, the archived entries form a well-formed tree (`archive_wellformed`); what remains of
+`RunSound` is the property's own identity⇒content assumption. -/
+theorem runSound_of_walk {F : Type} [DecidableEq F] (hashOf : List β → H) (g : List (LBackupF β F)) (mask : List Bool)
+    (fpf : String → F) (metaOf : Vsb.Walk.Path → Meta) (dataOf : Vsb.Walk.Path → List β) (targetOf : Vsb.Walk.Path → String)
+    (parentOf : Vsb.Walk.Path → Vsb.Walk.Parent) (items : List Vsb.Walk.Item) (finishOk : Bool)
+    (hn : ∀ it ∈ items, Vsb.Walk.namesOk it.node = true)
+    (hnorm : ∀ q ∈ Vsb.Walk.archs (Vsb.Walk.run parentOf items finishOk).1, NormalComps q)
+    (hfp : ∀ p m d, (.file p m d : Entry β) ∈ entriesOf metaOf dataOf targetOf (Vsb.Walk.run parentOf items finishOk).1 →
+      ∀ l r, loadLast (view (g.map (recsD hashOf)) mask) = some l →
+        lookupLast l (keyE (.file p m d : Entry β)) = some r → r.fp = fpf p → r.hash = hashOf d ∧ r.size = d.length) :
+    RunSound hashOf g mask (entriesOf metaOf dataOf targetOf (Vsb.Walk.run parentOf items finishOk).1) fpf :=
+  ⟨walk_archive_wf metaOf dataOf targetOf parentOf items finishOk hn hnorm, hfp⟩
 
 /-! Non-vacuity of `history_restore_exact`: a history of two runs in one group — the second finds `d/a` unchanged
 (same fingerprint: recorded hash reused), `d/c` with content already stored under another path, an empty file and a
